@@ -118,8 +118,18 @@ def names(nodes):
     return [repr(n.data) for n in nodes]
 
 
+class MySkip(SkipBranch):
+    """application-defined control values (subclasses of the library's) count like their base classes"""
+
+
+class MyStop(StopTraversal):
+    pass
+
+
 # signal forms: (name, kind, how, carried value)
 SKIP_FORMS = [
+    ("ret MySkip()", lambda: ("ret", MySkip())),
+    ("raise MySkip()", lambda: ("raise", MySkip())),
     ("ret SkipBranch", lambda: ("ret", SkipBranch)),
     ("ret SkipBranch()", lambda: ("ret", SkipBranch())),
     ("ret SkipBranch(and_self=True)", lambda: ("ret", SkipBranch(and_self=True))),
@@ -128,6 +138,8 @@ SKIP_FORMS = [
 ]
 STOP_FORMS = [
     ("ret False", lambda: ("ret", False), None),
+    ("ret MyStop(v)", lambda: ("ret", MyStop("v5")), "v5"),
+    ("raise MyStop(v)", lambda: ("raise", MyStop("v6")), "v6"),
     ("ret StopTraversal", lambda: ("ret", StopTraversal), None),
     ("ret StopTraversal(v)", lambda: ("ret", StopTraversal("v1")), "v1"),
     ("raise StopTraversal", lambda: ("raise", StopTraversal), None),
